@@ -998,17 +998,26 @@ class TestResult(unittest.TestResult):
                 sys.stdout is self._stdout_buffer or
                 sys.stderr is self._stderr_buffer):
             self._std_streams_buffered = False
-            stdout = self._stdout_buffer.getvalue()
-            stderr = self._stderr_buffer.getvalue()
             sys.stdout = self._original_stdout
             sys.stderr = self._original_stderr
-            self._stdout_buffer.seek(0)
-            self._stdout_buffer.truncate(0)
-            self._stderr_buffer.seek(0)
-            self._stderr_buffer.truncate(0)
+            stdout = self._takeBufferedOutput('_stdout_buffer')
+            stderr = self._takeBufferedOutput('_stderr_buffer')
             return stdout, stderr
         else:
             return None, None
+
+    def _takeBufferedOutput(self, name):
+        """Return what a capture stream holds and empty the stream."""
+        stream = getattr(self, name)
+        if stream.closed:
+            # The test closed the stream it found as sys.stdout/sys.stderr:
+            # what it wrote is gone, the next test gets a new stream.
+            setattr(self, name, None)
+            return ''
+        value = stream.getvalue()
+        stream.seek(0)
+        stream.truncate(0)
+        return value
 
     def startTest(self, test):
         self._test_state = test.__dict__.copy()
